@@ -43,7 +43,7 @@ MF == RunActs(S0(PP), Applied, 1)
 SameMsg(m, r) == /\ m.dir = r.dir /\ m.kind = r.kind /\ m.b1 = r.b1 /\ m.b2 = r.b2 /\ (m.kind = "resp" => m.ver = r.ver)
                  /\ (m.pay[2] - m.pay[1]) = r.plen
                  /\ (r.plen >= 4 /\ r.pay[1] >= 0) => <<r.pay[1], r.pay[2]>> = m.pay
-K04_Conforms  == (J /\ T.op = "layer") => (Len(MF.sent) = Len(T.msgs) /\ \A k \in 1..Len(T.msgs) : SameMsg(MF.sent[k], T.msgs[k]))
+K04_Conforms  == (J /\ T.op = "layer" /\ ~T.concurrent) => (Len(MF.sent) = Len(T.msgs) /\ \A k \in 1..Len(T.msgs) : SameMsg(MF.sent[k], T.msgs[k]))
 \* a fault-free exchange that the specification completes is completed by the code
 K04_Completes == (J /\ ~T.faulty /\ T.quiet /\ T.op = "layer" /\ Completed(MF)) => Success
 =============================================================================
